@@ -2078,7 +2078,7 @@ class Backend:
                 if isinstance(j, mesonlib.File):
                     source_list += [j.absolute_path(self.source_dir, self.build_dir)]
                 elif isinstance(j, (build.CustomTarget, build.BuildTarget, build.CustomTargetIndex)):
-                    source_list += [os.path.join(self.build_dir, j.get_builddir(), o) for o in j.get_outputs()]
+                    source_list += [os.path.join(self.build_dir, self.get_target_dir(j), o) for o in j.get_outputs()]
                 elif isinstance(j, build.GeneratedList):
                     private_dir = self.get_target_private_dir(target)
                     source_list += [os.path.join(self.build_dir, private_dir, o) for o in j.get_outputs()]
